@@ -214,7 +214,7 @@ func runC20(c c20Case) error {
 
 var (
 	c20Methods = []string{"GET", "POST", "PUT", "DELETE"}
-	c20URLs    = []string{"http://a.test/", "http://a.test/x?y=1", "https://b.test:8443/é", "http://c.test/%20"}
+	c20URLs    = []string{"http://a.test/", "http://a.test/x?y=1", "https://b.test:8443/é", "http://c.test/%20", "http://a.test/i/2", "http://a.test/i/22", "http://a.test/i/220", "http://a.test/i/2200"}
 	c20Errors  = []string{"500 Internal Server Error", "404 Not Found", "dial tcp: connection refused", "context deadline exceeded", "EOF", "bad: \"quoted\"\nline", "é漢"}
 )
 
@@ -223,7 +223,14 @@ func TestC20Prom(t *testing.T) {
 	vh.Check(t, 200, 8000, func(t *rapid.T) {
 		nm := rapid.IntRange(1, 4).Draw(t, "nmethods")
 		nu := rapid.IntRange(1, 4).Draw(t, "nurls")
-		codes := rapid.SliceOfNDistinct(rapid.SampledFrom([]uint16{0, 200, 201, 204, 301, 400, 404, 429, 500, 503}), 1, 6, func(c uint16) uint16 { return c }).Draw(t, "codes")
+		urls := rapid.SliceOfNDistinct(rapid.SampledFrom(c20URLs), nu, nu, func(u string) string { return u }).Draw(t, "urls")
+		codePool := []uint16{0, 200, 201, 204, 301, 400, 404, 429, 500, 503}
+		if rapid.IntRange(0, 3).Draw(t, "adjacent") == 0 {
+			// label values whose plain concatenation coincides (…/i/2 + 200 == …/i/220 + 0)
+			urls = c20URLs[4 : 4+rapid.IntRange(2, 4).Draw(t, "nadj")]
+			codePool = []uint16{0, 2, 20, 200, 100, 2200}
+		}
+		codes := rapid.SliceOfNDistinct(rapid.SampledFrom(codePool), 1, 6, func(c uint16) uint16 { return c }).Draw(t, "codes")
 		maxN := 400
 		var n int
 		switch rapid.IntRange(0, 5).Draw(t, "nk") {
@@ -240,7 +247,7 @@ func TestC20Prom(t *testing.T) {
 		}
 		bounds := prometheus.DefBuckets
 		for i := 0; i < n; i++ {
-			r := c20Res{Method: c20Methods[rapid.IntRange(0, nm-1).Draw(t, "m")], URL: c20URLs[rapid.IntRange(0, nu-1).Draw(t, "u")],
+			r := c20Res{Method: c20Methods[rapid.IntRange(0, nm-1).Draw(t, "m")], URL: urls[rapid.IntRange(0, len(urls)-1).Draw(t, "u")],
 				Code: codes[rapid.IntRange(0, len(codes)-1).Draw(t, "c")]}
 			if r.Code < 200 || r.Code >= 400 {
 				r.Err = rapid.SampledFrom(c20Errors).Draw(t, "e")
